@@ -453,3 +453,81 @@ def r20f(model: Model, rr: RuleResult):
         rr.ok("picosvg_dest: clipped sources go to picosvg/clipped/, unclipped to picosvg/")
     else:
         rr.bad(pd, pd.node, "picosvg_dest no longer separates clipped and unclipped outputs by directory", construct="picosvg_dest body")
+
+
+@RULES.rule("C20", "R20g", "same-named sources get distinct intermediate paths (the disambiguator is allocated per source, not read off part of its path)", floor=2)
+def r20g(model: Model, rr: RuleResult):
+    fi = model.func("nanoemoji", "_dest_for_src")
+    cfg = cfg_of(fi)
+    src = "input_svg"
+    # the registry idiom: probe slots (k, name) until one is free or already ours, then claim it
+    loops = [st for st in walk_body(fi) if isinstance(st, ast.While)]
+    counter = None
+    for lp in loops:
+        incs = [b for b in lp.body if isinstance(b, ast.AugAssign) and isinstance(b.op, ast.Add) and isinstance(b.target, ast.Name) and norm(b.value) == "1"]
+        t = norm(lp.test).replace(" ", "")
+        if len(incs) == 1 and len(lp.body) == 1:
+            k = incs[0].target.id
+            if f".get(({k},{src}.name),{src})!={src}" in t:
+                claims = [st for st in walk_body(fi) if isinstance(st, ast.Assign) and norm(st.targets[0]).replace(" ", "").replace("(", "").replace(")", "").endswith(f"[{k},{src}.name]") and norm(st.value) == src
+                          and cfg.dominates(cfg.node_for(lp), cfg.node_for(st))]
+                if claims:
+                    counter = k
+    if counter:
+        rr.ok(f"slot registry: `{counter}` is advanced until ({counter}, name) is free or already owned by this source, then claimed: one slot per distinct source")
+    ext = [st for st in walk_body(fi) if isinstance(st, ast.Assign) and len(st.targets) == 1 and norm(st.targets[0]) == "out_dir"
+           and isinstance(st.value, ast.BinOp) and isinstance(st.value.op, ast.Div)]
+    if not ext:
+        raise AnalysisError("_dest_for_src: no `out_dir = out_dir / <disambiguator>` step found")
+    for st in ext:
+        e = st.value.right
+        names, exprs = expr_closure(cfg, cfg.node_for(st), e)
+        if counter and names - {"str", "int", "repr", "format"} == {counter}:
+            rr.ok(f"`{short(st)}`: the sub-directory is the claimed slot number")
+            continue
+        lossy = [n for x in exprs for n in ast.walk(x) if isinstance(n, ast.Attribute) and n.attr in ("name", "stem", "suffix", "parent", "parts", "parents")
+                 and src in {m.id for m in ast.walk(n) if isinstance(m, ast.Name)}]
+        if lossy:
+            rr.bad(fi, st, f"`{short(st)}` tells same-named sources apart by {short(lossy[0])}, which different sources can share (light/svg/x.svg and regular/svg/x.svg): "
+                   f"their intermediates collide, the de-duplicated edge is built once and every later master/configuration silently gets the first one's artwork",
+                   construct=f"_dest_for_src: disambiguator {short(e)} is part of the path")
+        else:
+            raise AnalysisError(f"_dest_for_src: disambiguator {short(e)} is neither the slot counter nor derived from the source path (idiom not enumerated)")
+
+
+@RULES.rule("C20", "R20h", "the outline flavour follows the output file's suffix (config.output_format), not the colour format", floor=2)
+def r20h(model: Model, rr: RuleResult):
+    fi = model.func("write_font", "_make_ttfont")
+    cfg = cfg_of(fi)
+    want = {"compileTTF": ".ttf", "compileOTF": ".otf"}
+    for name, ext in want.items():
+        cs = [c for c in calls_in(fi) if callee_tail(c) == name]
+        if len(cs) != 1:
+            raise AnalysisError(f"_make_ttfont: expected one ufo2ft.{name} call")
+        at = cfg.node_for(cs[0])
+        ok = False
+        facts = guard_facts(cfg, at)
+        for e, pol in facts:
+            if not pol or not isinstance(e, ast.Compare) or len(e.ops) != 1 or not isinstance(e.ops[0], ast.Eq):
+                continue
+            sides = [e.left, e.comparators[0]]
+            consts = [x for x in sides if isinstance(x, ast.Constant)]
+            others = [x for x in sides if not isinstance(x, ast.Constant)]
+            if len(consts) == 1 and consts[0].value == ext and len(others) == 1:
+                _, exprs = expr_closure(cfg, at, others[0])
+                t = " ".join(norm(x) for x in exprs)
+                if "config.output_format" in t or ("config.output_file" in t and ("suffix" in t or "splitext" in t)):
+                    if "color_format" not in t and "_COLOR_FORMAT_GENERATORS" not in t:
+                        ok = True
+        if ok:
+            rr.ok(f"ufo2ft.{name} runs exactly when config.output_format == {ext!r}")
+        else:
+            rr.bad(fi, cs[0], f"ufo2ft.{name} is not selected by `config.output_format == {ext!r}` ({[short(e, 50) for e, _ in facts]}): with `--color_format glyf_colr_1 "
+                   f"--output_file Foo.otf` (or cff_colr_0 with a .ttf name) the file gets the other outline flavour than its name and the option promise",
+                   construct=f"_make_ttfont: {name} guard")
+    ofmt = model.mod("config").cls("FontConfig").node
+    prop = [n for n in ofmt.body if isinstance(n, ast.FunctionDef) and n.name == "output_format"]
+    if prop and "Path(self.output_file).suffix" in " ".join(norm(x) for x in prop[0].body):
+        rr.ok("FontConfig.output_format is the suffix of output_file")
+    else:
+        rr.bad(model.mod("config"), ofmt, "FontConfig.output_format is no longer the suffix of output_file", construct="FontConfig.output_format")
